@@ -4,7 +4,7 @@
 (* zerv must report under each input format.  The operation history is hidden from  *)
 (* the state identity by a VIEW.                                                     *)
 EXTENDS GitRepo, Json, SequencesExt
-CONSTANTS MaxOps, Emit, NTags
+CONSTANTS MaxOps, Emit, NTags, Rewrite   \* Rewrite: also reset --hard / commit --amend / tag -f
 \* tag names: v1.0.0 (both formats), 1.0.0a1 (PEP 440 only), latest (neither), v2.0.0-rc.1 (SemVer only),
 \* 1.0.0 (equal to v1.0.0), v1.1.0
 TagPool == << <<118,49,46,48,46,48>>, <<49,46,48,46,48,97,49>>, <<108,97,116,101,115,116>>,
@@ -25,6 +25,10 @@ Next == /\ Len(hist) < MaxOps
            \/ \E t \in TagNames : Tag(t, FALSE) /\ Op("tag", t)
            \/ \E t \in TagNames : Tag(t, TRUE) /\ Op("atag", t)
            \/ \E t \in TagNames : DeleteTag(t) /\ Op("deltag", t)
+           \/ Rewrite /\ \E c \in 1..N : Reset(c) /\ Op("reset", c)
+           \/ Rewrite /\ Amend /\ Op("amend", NoArg)
+           \/ Rewrite /\ \E t \in TagNames : (\E x \in tags : x.name = t /\ x.c # HeadCommit) /\ MoveTag(t, FALSE) /\ Op("movetag", t)
+           \/ Rewrite /\ \E t \in TagNames : (\E x \in tags : x.name = t /\ x.c # HeadCommit) /\ MoveTag(t, TRUE) /\ Op("moveatag", t)
 Spec == Init /\ [][Next]_vars
 View == <<parents, branches, head, tags>>
 
@@ -39,6 +43,7 @@ Interesting == \/ \E c \in 1..N : Len(parents[c]) = 2                         \*
                \/ \E x, y \in tags : x # y /\ x.c = y.c                          \* two tags on a commit
                \/ \E x \in tags : x.c \notin Anc(HeadCommit)                     \* a tag unreachable from HEAD
                \/ ~OnBranch
+               \/ \E c \in 1..N : \A b \in DOMAIN branches : c \notin Anc(branches[b])   \* a commit no branch reaches (rewritten history)
 EmitLine ==
   (Emit /\ hist # <<>>) =>
     PrintT("REPLAY " \o ToJson([ ops |-> hist, n |-> N, headc |-> HeadCommit, branch |-> BranchReported,
